@@ -46,6 +46,10 @@ def check(ctx):
     _r4(ctx, pkg)
     _r5(ctx, rm, pkg)
     _r6(ctx, pkg)
+    # the exported configuration carries the network's modifier tables whole (shared with C13.R7): a modifier dropped on the way into
+    # naunet_config.toml makes the re-rendered project compute the unmodified law
+    from .c13 import _r7 as modifier_tables_whole
+    ctx.absorb(modifier_tables_whole, "R9", only=lambda o: o.outcome != "MISSING")
 
 
 def _writer(ctx, rm, pkg):
